@@ -88,7 +88,12 @@ class Element(Node):
 class DictAttributes(Node):
     """Element attributes from one or more Python dicts."""
 
-    _fields = "expression", "char_escape", "quote", "exclude", "bool_names"
+    _fields = (
+        "expression", "char_escape", "quote", "exclude", "bool_names",
+        "filters",
+    )
+
+    filters = ()
 
 
 class Attribute(Node):
